@@ -42,4 +42,8 @@ theorem distinct_names_independent (fs : T) (p q : Path) (e : Entry) (h : ¬ p.i
 /-- non-vacuity: /d/t0a and /d/t1a are unrelated names in a shared directory -/
 example : ¬ ([[100], [116, 48, 97]] : Path).isPrefixOf [[100], [116, 49, 97]] = true := by decide
 
+/-- AttrCache.Get changes the map and the LRU list only while it holds the write lock (the model's two-phase Get:
+    decision under the read lock, mutation under the write lock after a re-check) -/
+theorem gen_attr_cache_get_locking : Gen.attrCacheGetMutatesUnderWriteLock = true := by decide
+
 end Props.C29
